@@ -26,6 +26,7 @@ var guardedLiteclient = map[string]string{
 func propC12(c *Ctx) propInfo {
 	c.errflow(excC12E2, "liteclient")
 	c.queryFraming()
+	c.connectionDispatch()
 	la := c.newLockAnalysis("liteclient")
 	la.guardedBy("E9.K1-guarded-by", guardedLiteclient, map[string]string{
 		"(*liteclient.Connection).setupEncryptedConnection read liteclient.Connection.econn":   "read by the single goroutine that performs the (re)connect; status is Connecting, so Send and other users do not touch econn until this goroutine publishes Connected",
@@ -569,4 +570,171 @@ func (c *Ctx) queryFraming() {
 		dt, dm, ds := consts(d)
 		c.check(et == 254 && dt == 254 && em == 254 && dm == 254 && es == 8 && ds == 8, R, "length prefix: short below 254, else 254 | 24-bit little-endian", e.Pos(), "threshold 254, marker 254, shift 8 on both sides", fmt.Sprintf("encodeLength (threshold %d, marker %d, shift %d) and decodeLength (threshold %d, restored marker %d, shift %d) do not both implement the TL length prefix (one byte below 254, otherwise 254 followed by the 24-bit little-endian length)", et, em, es, dt, dm, ds))
 	}
+}
+
+// connectionDispatch (after the mutation battery): polarity of the small protocol decisions of the
+// connection, each read off the branch facts at the handler call or state change.
+func (c *Ctx) connectionDispatch() {
+	const R = "E12.dispatch"
+	// fact helper: at block b, is "x.MagicType() == K" established (true) / refuted (false)?
+	magicFact := func(f *ssa.Function, b *ssa.BasicBlock, k int64) (seen, eq bool) {
+		for _, ft := range factsAt(f, b) {
+			bo, ok := ft.Cond.(*ssa.BinOp)
+			if !ok || (bo.Op != token.EQL && bo.Op != token.NEQ) {
+				continue
+			}
+			cl := callOf(bo.X)
+			if cl == nil || !strings.HasSuffix(callQName(&cl.Call), ".MagicType") {
+				continue
+			}
+			if kk, ok := constInt(bo.Y); ok && kk == k {
+				return true, (bo.Op == token.EQL) == ft.Truth
+			}
+		}
+		return false, false
+	}
+	type disp struct{ fn, handler, magic string }
+	for _, d := range []disp{
+		{"Connection.reader", "Connection.processPong", "magicTCPPong"},
+		{"Connection.reader", "Connection.handleAuthResponse", "magicTcpAuthentificationNonce"},
+		{"Client.reader", "Client.processQueryAnswer", "magicADNLAnswer"},
+	} {
+		f := c.mustFn(R, "liteclient", d.fn)
+		if f == nil {
+			continue
+		}
+		k := c.constValue("liteclient", d.magic)
+		calls := callsTo(f, modPath+"/liteclient."+d.handler)
+		okv := len(calls) > 0 && k >= 0
+		for _, cl := range calls {
+			seen, eq := magicFact(f, cl.Block(), k)
+			if !seen || !eq {
+				okv = false
+			}
+		}
+		c.check(okv, R, d.handler+" handles exactly "+d.magic, f.Pos(), "called on the edge where MagicType() equals the constant", fmt.Sprintf("%s is not called exactly for packets whose constructor id is %s (0x%08x): answers of that kind are dropped or foreign packets are parsed as that kind", d.handler, d.magic, uint32(k)))
+	}
+	// ping: 12 bytes = id LE32 | random 8; the registered id is the random part; the pong id is read
+	// from the same offset and only for 12-byte packets
+	if f := c.mustFn(R, "liteclient", "Connection.ping"); f != nil {
+		sz := madeSizes(f)
+		var offs []string
+		allInstrs(f, func(_ *ssa.BasicBlock, in ssa.Instruction) {
+			cl, ok := in.(*ssa.Call)
+			if !ok {
+				return
+			}
+			q := callQName(&cl.Call)
+			if q == "crypto/rand.Read" || q == "encoding/binary.littleEndian.Uint64" {
+				if sl, ok := cl.Call.Args[len(cl.Call.Args)-1].(*ssa.Slice); ok {
+					offs = append(offs, offShape(sl.Low))
+				}
+			}
+		})
+		c.check(len(sz) == 1 && sz[0] == 12 && len(offs) == 2 && offs[0] == "4" && offs[1] == "4", R, "tcp.ping = id:4 | random_id:8, the registered id is the random part", f.Pos(), fmt.Sprintf("size %v, random written/read at %v", sz, offs), fmt.Sprintf("Connection.ping builds a packet of %v bytes with the random id written/registered at offsets %v; tcp.ping is 4+8 = 12 bytes and the id registered for the round trip must be the 8 bytes that are sent", sz, offs))
+	}
+	if f := c.fn("liteclient", "Connection.reader"); f != nil {
+		for _, cl := range callsTo(f, modPath+"/liteclient.Connection.processPong") {
+			off := "?"
+			if c2 := callOf(cl.Call.Args[1]); c2 != nil {
+				if sl, ok := c2.Call.Args[len(c2.Call.Args)-1].(*ssa.Slice); ok {
+					off = offShape(sl.Low)
+				}
+			}
+			lenOK := false
+			for _, ft := range factsAt(f, cl.Block()) {
+				if bo, ok := ft.Cond.(*ssa.BinOp); ok && bo.Op == token.EQL && ft.Truth {
+					if k, ok := constInt(bo.Y); ok && k == 12 {
+						if lc := callOf(bo.X); lc != nil {
+							lenOK = true
+						}
+					}
+				}
+			}
+			c.check(off == "4" && lenOK, R, "tcp.pong: 12 bytes, random_id at [4:]", cl.Pos(), "len == 12, LE64 at 4", fmt.Sprintf("the pong handler reads the id at offset %s (length test == 12: %v); tcp.pong is id:4 | random_id:8", off, lenOK))
+		}
+	}
+	// processPong: found exactly on the ok edge
+	if f := c.fn("liteclient", "Connection.processPong"); f != nil {
+		okv := true
+		for _, r := range returnsOf(f) {
+			if r.Block().Comment == "recover" {
+				continue // the exit taken after a recovered panic: returns whatever the results hold
+			}
+			found, isConst := constBool(retVal(r, 1))
+			if !isConst {
+				okv = false
+				continue
+			}
+			present := false
+			for _, ft := range factsAt(f, r.Block()) {
+				if ex, ok := ft.Cond.(*ssa.Extract); ok && ex.Index == 1 && ft.Truth {
+					if _, isL := ex.Tuple.(*ssa.Lookup); isL {
+						present = true
+					}
+				}
+			}
+			if found != present {
+				okv = false
+			}
+		}
+		c.check(okv, R, "processPong reports a round trip exactly for a registered ping", f.Pos(), "true on the ok edge of the lookup", "processPong returns its found flag with the wrong polarity: round trips are recorded for unknown ids and dropped for real ones")
+	}
+	// without an auth key the connection is published right away; the auth exchange runs only with one
+	if f := c.fn("liteclient", "Connection.setupEncryptedConnection"); f != nil {
+		for _, cl := range callsTo(f, modPath+"/liteclient.Connection.sendAuthRequest") {
+			okv := false
+			for _, ft := range factsAt(f, cl.Block()) {
+				if bo, ok := ft.Cond.(*ssa.BinOp); ok && (bo.Op == token.EQL || bo.Op == token.NEQ) && isNilConst(bo.Y) {
+					if _, fn, ok := fieldOfLoad(bo.X); ok && fn == "authKey" && (bo.Op == token.NEQ) == ft.Truth {
+						okv = true
+					}
+				}
+			}
+			c.check(okv, R, "the auth exchange runs only when an auth key is configured", cl.Pos(), "sendAuthRequest behind authKey != nil", "setupEncryptedConnection starts the auth exchange on the path where NO auth key is configured (and skips it where one is): an ordinary connection waits 10 s for a nonce that never comes and fails")
+		}
+	}
+	// reconnect: the retry loop runs unless a reconnect is already in progress
+	if f := c.fn("liteclient", "Connection.reconnect"); f != nil {
+		kc := c.constValue("liteclient", "Connecting")
+		for _, cl := range callsTo(f, modPath+"/liteclient.Connection.setupEncryptedConnection") {
+			okv := false
+			for _, ft := range factsAt(f, cl.Block()) {
+				if bo, ok := ft.Cond.(*ssa.BinOp); ok && (bo.Op == token.EQL || bo.Op == token.NEQ) {
+					if k, ok := constInt(bo.Y); ok && k == kc {
+						if _, fn, ok := fieldOfLoad(bo.X); ok && fn == "status" && (bo.Op == token.NEQ) == ft.Truth {
+							okv = true
+						}
+					}
+				}
+			}
+			c.check(okv, R, "reconnect proceeds unless one is already in progress", cl.Pos(), "retry loop behind status != Connecting", "reconnect returns early exactly when NO reconnect is in progress: a lost connection is never re-established")
+		}
+	}
+	// handleAuthResponse: Connected is published on the success edge of sendAuthComplete
+	if f := c.fn("liteclient", "Connection.handleAuthResponse"); f != nil {
+		kc := c.constValue("liteclient", "Connected")
+		allInstrs(f, func(b *ssa.BasicBlock, in ssa.Instruction) {
+			st, ok := in.(*ssa.Store)
+			if !ok {
+				return
+			}
+			if _, fn, ok := fieldOf(st.Addr); !ok || fn != "status" {
+				return
+			}
+			if k, ok := constInt(st.Val); !ok || k != kc {
+				return
+			}
+			okv := false
+			for _, ft := range factsAt(f, b) {
+				if bo, ok := ft.Cond.(*ssa.BinOp); ok && (bo.Op == token.EQL || bo.Op == token.NEQ) && isNilConst(bo.Y) && isErrorType(bo.X.Type()) {
+					if (bo.Op == token.EQL) == ft.Truth {
+						okv = true
+					}
+				}
+			}
+			c.check(okv, R, "Connected is published only after a successful auth completion", st.Pos(), "status = Connected behind err == nil", "handleAuthResponse marks the connection Connected on the path where sending the auth completion FAILED")
+		})
+	}
+	c.floor(R, 8)
 }
